@@ -149,6 +149,11 @@ def retag(s):
     return ('"' if " " in s else "", s)
 
 
+def gen(ctx=None):
+    """regenerates Gen/ShellRegexes.v from the regex literals of the current source (write-if-changed)"""
+    X.gen(ctx)
+
+
 def run(ctx, res):
     rng = ctx.rng
     known = {k["class"]: k for k in C.known_findings("C12")}
@@ -223,13 +228,15 @@ def run(ctx, res):
     for t in terms:
         lb.append(C.case("term", render(t)))
         lb.append(C.case("bgi", render(t), "0"))
+        lb.append(C.case("eb", X.toks_field([("", "x"), ("", render(t)), ("'", render(t))])))
     pb = C.write_cases("c12_b.txt", lb)
     mb = C.run_model(ctx.model["C12"], pb)
     ib = C.run_impl(ctx.bins["c12"], pb, len(lb), timeout=600)
     res.count("L1b_grammar_terms", len(terms))
     for k, t in enumerate(terms):
         exp = den(t)
-        mterm, mbgi, ibgi = mb[2 * k], mb[2 * k + 1], ib[2 * k + 1]
+        mterm, mbgi, ibgi = mb[3 * k], mb[3 * k + 1], ib[3 * k + 1]
+        meb, ieb = mb[3 * k + 2], ib[3 * k + 2]
         want_term = '"%s" %s wf=T' % (C.enc(render(t)), qlist(exp))
         want_bgi = "(%s,%s)" % (qlist(exp), '""')
         if all_multi(t) and mterm != want_term:
@@ -241,6 +248,15 @@ def run(ctx, res):
         elif mbgi != ibgi:
             violate(kind="correspondence", layer="L1b", input=render(t), model=mbgi, impl=ibgi, failing_input=False,
                     note="model and implementation disagree on a well-formed term")
+        # through the gate (need_expand_brace) and the token replacement: every term has a group with a comma
+        want_eb = toks_line([("", "x")] + [retag(w) for w in exp] + [("'", render(t))])
+        if all_multi(t) or "," in render(t):
+            if ieb != want_eb:
+                violate(kind="oracle", layer="L1b", input=render(t), expected=want_eb, observed=ieb, model=meb,
+                        failing_input=True, note="expand_brace on a line: the word is not replaced by the product, in place")
+            elif meb != ieb:
+                violate(kind="correspondence", layer="L1b", input=render(t), model=meb, impl=ieb, failing_input=False,
+                        note="model and implementation disagree on expand_brace")
         res.nontrivial("b:" + render(t))
     res.sample({"layer": "L1b", "input": render(terms[0]), "reference": den(terms[0]), "impl": ib[1], "model": mb[1]})
     # single-alternative group: recorded finding
@@ -387,6 +403,13 @@ def run(ctx, res):
                 emeta.append((d, None, toks, None))
             # do_expansion: pass order on one line
             wdx = wf + "\x1eH\x1d/home/u\x1eSA\x1d{p,q}\x1eSB\x1dv w"
+            # pass order glob -> command substitution: an output holding a star is NOT expanded into file names
+            starf = os.path.join(work, "subst_output.txt")
+            open(starf, "w").write("*\n")
+            scmd = "%s %s" % (os.path.join(ctx.helpers, "csub"), starf)
+            wdx += "\x1eR" + scmd + "\x1d*\n"
+            le.append(C.case("dx", wdx, "30", X.toks_field([("", "echo"), ("", "*.txt"), ("", "$(%s)" % scmd), ('"', "*")])))
+            emeta.append((d, None, [("", "echo"), ("", "*.txt"), ("", "$(%s)" % scmd), ('"', "*")], "dxstar"))
             for toks in [[("", "echo"), ("", "~/x"), ("", "$B"), ("", "{a,b}$B"), ("", "*.txt"), ("", "{1..3}"), ("'", "{a,b}*~$B")],
                          [("", "echo"), ("", "$A"), ("", "x{1..2}"), ('"', "~ $B {a,b} *")],
                          [("", "1"), ("", "+"), ("", "{1,2}")], [("", "export"), ("", "PROMPT=$B{a,b}")]]:
@@ -397,9 +420,17 @@ def run(ctx, res):
         ie = C.run_impl(ctx.bins["c12"], pe, len(le), shards=1)
         res.count("L1e_glob_L1f_do_expansion", len(le))
         for (d, p, toks, tbl), a, b in zip(emeta, me, ie):
-            if tbl == "dx":
+            if tbl in ("dx", "dxstar"):
                 b = b.split("\t", 1)[1] if b.startswith("pid=") else b
                 a = a.split(" calls=")[0]
+            if tbl == "dxstar":
+                got = parse_toks(b)
+                if len(got) < 2 or got[-2] != ("", "*") or got[-1] != ('"', "*"):
+                    violate(kind="oracle", layer="L1f", dir=d, directory_entries=sorted(pops[int(os.path.basename(d)[3:])]),
+                            input=toks_line(toks), expected="... the untagged token * (the output) and the quoted *",
+                            observed=b, model=a, failing_input=True,
+                            note="the output of a command substitution was expanded into file names (pass order)")
+                    continue
             differs = a != b
             if p is None or p in ("'*'", "\\*") or tbl is None:
                 if differs:
